@@ -44,7 +44,7 @@ def gen_books(tier):
     """Codebook_MC: exhaustive design check of the codeword assignment + one decode test per length list"""
     me, ml = (4, 3) if tier == 'quick' else (5, 4)
     cfg = os.path.join(vlib.SPEC, f'.cb_{os.getpid()}.cfg')
-    open(cfg, 'w').write(f'SPECIFICATION Spec\nCONSTANTS MaxEntries = {me}\n MaxLenBits = {ml}\n Gen = TRUE\nINVARIANT OverIffKraft\nINVARIANT CarryChainAgrees\nINVARIANT PrefixFree\nINVARIANT RoundTrip\nINVARIANT FirstIsZero\nINVARIANT ModelAgrees\nINVARIANT Export\nCHECK_DEADLOCK FALSE\n')
+    open(cfg, 'w').write(f'SPECIFICATION Spec\nCONSTANTS MaxEntries = {me}\n MaxLenBits = {ml}\n Gen = TRUE\nINVARIANT OverIffKraft\nINVARIANT CarryChainAgrees\nINVARIANT FastAgrees\nINVARIANT PrefixFree\nINVARIANT RoundTrip\nINVARIANT FirstIsZero\nINVARIANT ModelAgrees\nINVARIANT Export\nCHECK_DEADLOCK FALSE\n')
     r = vlib.run_tlc('Codebook_MC.tla', os.path.basename(cfg), workers=6, timeout=2400); os.remove(cfg)
     cases = []
     for m in re.findall(r'"CASE (\{.*\})"', r['out']):
